@@ -52,4 +52,6 @@ def run(ctx):
     ctx.replay_vectors("MC_Codec", "MC_Codec.cfg", perform, "grid", classify, consts='CONSTANT Area = "tlv"',
                        need_actions=("PickVector",))
     ctx.validate_events(events(ctx), "calls", classify, shard=2000)
+    from .. import repotests
+    repotests.codec_stage(ctx, "C08")       # the calls the repository's own tests make, judged by the specification
     ctx.exhaustive = False
